@@ -323,7 +323,7 @@ func (hp *HashPaser) zipmap(cb RdbObjExecutor) {
 	buf := util.NewSliceBuffer(zipmap)
 	lenByte := buf.ReadByte()
 	if lenByte >= 254 { // we need to count the items manually
-		length = r.CountZipmapItemsP(buf)
+		length = r.CountZipmapItemsP(buf) / 2 // pairs of field and value
 	} else {
 		length = int(lenByte)
 	}
